@@ -182,7 +182,7 @@ const (
 func (r Result) String() string { return [...]string{"unsat", "sat", "unknown"}[r] }
 
 type Stats struct {
-	Queries, Sat, Unsat, Unknown int
+	Queries, Sat, Unsat, Unknown, Retries int
 	Time                         time.Duration
 	MaxQueryBytes                int
 }
@@ -304,26 +304,39 @@ func (s *Solver) Check(extra *Term, wantModel bool) (Result, Model) {
 		s.Stats.MaxQueryBytes = sb.Len()
 	}
 	s.send(sb.String())
-	res := Unknown
-	for {
-		line := s.readLine()
-		if s.cmd == nil {
-			break
+	verdict := func() Result {
+		res := Unknown
+		for {
+			line := s.readLine()
+			if s.cmd == nil {
+				break
+			}
+			if line == "sat" {
+				res = Sat
+				break
+			} else if line == "unsat" {
+				res = Unsat
+				break
+			} else if line == "unknown" || line == "timeout" {
+				break
+			} else if strings.HasPrefix(line, "(error") {
+				s.LastErr = line
+				// an error line precedes the verdict or replaces it; the verdict (if any) is not trusted
+				res = Unknown
+				// drain: z3 prints the check-sat answer after errors in earlier commands
+				continue
+			}
 		}
-		if line == "sat" {
-			res = Sat
-			break
-		} else if line == "unsat" {
-			res = Unsat
-			break
-		} else if line == "unknown" || line == "timeout" {
-			break
-		} else if strings.HasPrefix(line, "(error") {
-			s.LastErr = line
-			// an error line precedes the verdict or replaces it; the verdict (if any) is not trusted
-			res = Unknown
-			// drain: z3 prints the check-sat answer after errors in earlier commands
-			continue
+		return res
+	}
+	res := verdict()
+	if res == Unknown && s.cmd != nil && s.LastErr == "" && s.TimeoutMS > 0 {
+		// a time-out under load is not a verdict: ask once more with six times the budget
+		s.Stats.Retries++
+		s.send(fmt.Sprintf("(set-option :timeout %d)\n(check-sat)\n", 6*s.TimeoutMS))
+		res = verdict()
+		if s.cmd != nil {
+			s.send(fmt.Sprintf("(set-option :timeout %d)\n", s.TimeoutMS))
 		}
 	}
 	var m Model
